@@ -362,7 +362,9 @@ async def groupby(
 
     async for element in iterator:
         next_key = element if key is None else await key(element)
-        if next_key != group_key:
+        # Same test as itertools.groupby(): PyObject_RichCompareBool(old, new, Py_EQ),
+        # i.e. identity first, then ==  (matters for keys like NaN where x != x)
+        if not (group_key is next_key or group_key == next_key):
             completed_group = group_key, values
             group_key = next_key
             values = [element]
